@@ -62,6 +62,16 @@ CHECKS = {
  "C20": ("exhaustive enumeration of 44 inputs x ignore_include x allow_incomplete x strip_comments x 3 define tables x 4 include-path lists on real files; differential oracle between preprocess/preprocess_str and between the four routes to a tree (text, origin of every byte/leaf, tables with origins, errors)",
          "All configurations of the stated finite space are executed through every entry point and compared pairwise.",
          "Trusted: the harness. The copies of the included file differ per include path so that dropped or reordered arguments are observable."),
+
+ "C13": ("bounded exhaustive enumeration: 8 version specifiers x 258 words x 7 identifier positions, the default set, all keyword-region programs <= n (nested, sequential, unclosed), leading-directive pairs, `define of every directive name; plus the invariant 'no SimpleIdentifier is reserved in the set in force' recomputed from the directive nodes on every tree of the corpus and the reference grammar",
+         "Every (version, word, position) and every region program of the stated finite space is parsed; acceptance and the identifier leaves are compared with independently typed keyword tables.",
+         "Trusted: models/keywords/*.txt (typed from Annex B / Table 22-x, not read from keywords.rs). Ten known findings, each a specific (position, word) pair."),
+ "C17": ("bounded exhaustive sweep: inputs (seeds, default sentence of every grammar rule, keyword-region programs, left-recursive list shapes of 1..8 elements) x memo policies (FIFO capacities incl. the shipped one, periodic flush, forced misses) chosen through the verif hook; result compared with the unbounded-table run; hook counters prove that eviction happened",
+         "Every (input, policy) pair of the stated finite space is executed on the real parser with the real nom-packrat table behind a counting wrapper.",
+         "Trusted: the verif wrapper delegates to nom_packrat::PackratStorage. Divergent pairs are attributed to the one known finding only if a child-process re-run in a diagnostic mode (flag-carrying spans bypass the table) reproduces the reference result."),
+ "C19": ("stateless model checking of the real code under a token-passing scheduler over real OS threads: all schedules with <= 1 (quick) / 2-3 (thorough) preemptions at the library's hook points for 2- and 3-thread combinations of colliding inputs; every execution runs to completion and is compared with the solo results; failing schedules are replayed twice",
+         "All interleavings within the preemption bound at hook-point granularity are enumerated depth-first; schedules, points and the number of schedules with an open interference window are reported.",
+         "Trusted: hook points placed at every read/write of the thread-local parser state (init, white_space, is_keyword, begin/end_directive, begin/end_keywords, clear_*, memo get/insert); interference is assumed observable at that granularity; a free-running 16-thread pass is sampling only."),
 }
 PENDING = {}
 
